@@ -288,7 +288,8 @@ def expect_smtp(lmtp, nrcpt, stage, oclass, tls_required=False):
         i = int(stage[3:])
         if oclass in ('4xx', '5xx'):
             return [c if j == i else 'D' for j in range(nrcpt)]
-        return ['?' if j < i else 'T' for j in range(nrcpt)]
+        # the others may have been answered (and accepted) before / after the broken reply: nothing demanded
+        return ['T' if j == i else '?' for j in range(nrcpt)]
     return [c] * nrcpt
 
 
@@ -330,7 +331,7 @@ def smtp_stage_outcomes(lmtp, nrcpt):
             yield st, o
 
 
-def gen_smtp_all(rnd, ndouble):
+def gen_smtp_all(rnd, ndouble, full=False):
     cases = []
     # --- plain single-fault table
     for lmtp in (False, True):
@@ -391,6 +392,9 @@ def gen_smtp_all(rnd, ndouble):
     # --- connection reuse: fault in the first message, clean second message on the same relay object
     reuse_stages = ['banner', 'mail', 'rcpt0', 'rcpt1', 'data', 'eod0', 'eod1', 'quit']
     reuse_outcomes = ['450', '550', 'garbage', 'range699', 'badutf8', 'partial-silence', '1xx', 'close', 'stall']
+    if full:
+        reuse_outcomes = list(OUTCOMES)
+        reuse_stages = ['banner', 'ehlo'] + reuse_stages[1:]
     for lmtp in (False, True):
         for pipelining in (True, False):
             for mode in ('immediate', 'after-idle'):
@@ -474,11 +478,11 @@ def _conn_log(D):
     return out
 
 
-def _wait_idle(relay, limit=1.0):
-    """Synchronisation only: until every pool client is idle (or gone)."""
+def _wait_idle(relay, limit=1.0, gone=False):
+    """Synchronisation only: until every pool client is idle (or, with gone=True, has finished)."""
     waited = 0.0
     while waited < limit:
-        if all(getattr(c, 'idle', False) for c in list(relay.pool)):
+        if not relay.pool or (not gone and all(getattr(c, 'idle', False) for c in list(relay.pool))):
             return True
         gevent.sleep(0.004)
         waited += 0.004
@@ -518,7 +522,11 @@ def exec_smtp(case):
             if mi + 1 < nmsg and case['reuse'] == 'after-idle':
                 msgs[-1]['went_idle'] = _wait_idle(relay)
         if msgs[-1]['result']['end'] != 'hang':
-            _wait_idle(relay, 6 * T)        # synchronisation only: let RSET / QUIT reach the downstream
+            # synchronisation only: let RSET / QUIT reach the downstream before its log is read
+            if any(f['stage'] == 'quit' for f in case['faults']):
+                _wait_idle(relay, 6 * T + (0.3 if case.get('reuse') else 0), gone=True)
+            else:
+                _wait_idle(relay, 6 * T)
         gevent.sleep(0)
         acc = D.accepted()
         for m in msgs:
@@ -1154,7 +1162,8 @@ def judge(case, obs, R=None):
             hit('reuse-second-message-judged')
         if res['end'] == 'hang':
             V.append((classify('ends', case, m, crashes=obs['log'].get('client_greenlets_died_with', ())),
-                      after %.1fs = %dx the configured timeout [%s]' % (res['watchdog_s'], K, tag), wit))
+                      'attempt() still blocked after %.1fs = %dx the configured timeout [%s]'
+                      % (res['watchdog_s'], K, tag), wit))
             continue
         if res['end'] in ('raised-other', 'returned-error-object', 'returned-bad-type'):
             what = {'raised-other': 'attempt() raised %s, not a RelayError: %s',
@@ -1254,9 +1263,9 @@ def is_nontrivial(case):
 
 def all_cases(tier, seed):
     rnd = random.Random('c11-%s-%d' % (tier, seed))
-    smtp = gen_smtp_all(rnd, 1500 if tier == 'thorough' else 120)
+    smtp = gen_smtp_all(rnd, 3000 if tier == 'thorough' else 150, full=(tier == 'thorough'))
     others = gen_pipe_all() + gen_http_all() + gen_mx_all()
-    if tier == 'thorough':
+    if tier == 'thorough' or QUICK_EXTRA is None:
         return smtp + others
     # quick: every (kind/proto, stage family incl. reuse flag, outcome) once with a seeded choice among the
     # configurations that have it, plus a seeded extra sample; pipe / http / mx tables in full
@@ -1277,7 +1286,7 @@ def all_cases(tier, seed):
     return chosen + rest[:QUICK_EXTRA] + doubles + others
 
 
-QUICK_EXTRA = 900
+QUICK_EXTRA = None      # None: quick runs the whole single-fault table too (measured ~40 s with 12 shards)
 
 
 def gen_cases(tier, seed, shard, nshards):
